@@ -16,6 +16,8 @@ inductive DiffVar where
   | whole (v : Nat)                                   -- `x`
   | idx (v : Nat) (i : Int)                           -- `x[i]`
   | slice (v : Nat) (start stop : Option Int)         -- `x[a:b]`, open ends allowed
+  | strided (v : Nat) (start stop : Option Int) (step : Int)   -- `x[a:b:s]`, any step (a zero step is a ValueError)
+  | pick (v : Nat) (ks : List Int)                    -- `x[[k₁, k₂, …]]` (numpy fancy indexing of the address array)
 deriving Repr, DecidableEq, Inhabited
 
 structure EqDecl where
@@ -51,6 +53,18 @@ def DiffVar.cols (vars : List Nat) : DiffVar → Except Err (List Nat)
       | some n =>
         let se := Heap.sliceBounds n (a.getD 0) (b.getD (n : Int))
         .ok ((List.range (se.2 - se.1)).map (varStart vars v + se.1 + ·))
+  | .strided v a b step => match vars[v]? with
+      | none => .error .key
+      | some n =>
+        if step = 0 then .error .value
+        else
+          let sc := stridedBounds n a b step
+          .ok ((List.range sc.2).map fun (j : Nat) => varStart vars v + (sc.1 + (j : Int) * step).toNat)
+  | .pick v ks => match vars[v]? with
+      | none => .error .key
+      | some n => do
+        let js ← ks.mapM (Heap.normIdx n)
+        .ok (js.map (varStart vars v + ·))
 
 /-- an equation after sizing: its size and, for an `Ode`, the column addresses -/
 structure REq where
